@@ -213,3 +213,7 @@ Print Assumptions C09_remove_tag_source_is_model.
 Theorem C09_consume_keeps_the_encoding : forall k o p ext, marshal_out k (fst (consume_step k o p ext)) = marshal_out k o.
 Proof. exact consume_keeps_marshal. Qed.
 Print Assumptions C09_consume_keeps_the_encoding.
+
+Theorem C09_sign_verify_keeps_the_object : forall o vs ext, fst (sign_consume_step o vs ext) = o.
+Proof. exact sign_consume_keeps_object. Qed.
+Print Assumptions C09_sign_verify_keeps_the_object.
